@@ -229,7 +229,14 @@ func unescape(s string) string {
 			i++
 			continue
 		}
-		end := strings.IndexByte(s[i:], ';')
+		// a reference is at most 10 bytes long ("&#x10FFFF;"): look no further
+		// for its ';' (searching the rest of the value for every '&' would be
+		// quadratic in a value made of '&')
+		w := s[i:]
+		if len(w) > 11 {
+			w = w[:11]
+		}
+		end := strings.IndexByte(w, ';')
 		if end < 2 || end > 10 {
 			sb.WriteByte(s[i])
 			i++
